@@ -168,7 +168,12 @@ def _build_evaluator(
         VectorUnarySum,
         VectorExpressionSum,
     )
-    from optyx.core.matrices import QuadraticForm
+    from optyx.core.matrices import (
+        FrobeniusNorm,
+        MatrixSum,
+        MatrixVariable,
+        QuadraticForm,
+    )
 
     if isinstance(expr, Constant):
         value = expr.value
@@ -232,6 +237,22 @@ def _build_evaluator(
         Q = expr.matrix
         vec_fn = _build_vector_evaluator(expr.vector, var_indices)
         return lambda x, vf=vec_fn, Q=Q: float(vf(x) @ Q @ vf(x))
+
+    elif isinstance(expr, MatrixSum):
+        # sum of all matrix entries (symmetric matrices count shared variables twice)
+        if isinstance(expr.matrix, MatrixVariable):
+            indices = np.array(
+                [var_indices[v.name] for row in expr.matrix._variables for v in row]
+            )
+            return lambda x, idx=indices: float(np.sum(x[idx]))
+        elem_fns = [_build_evaluator(e, var_indices) for e in expr.matrix.flatten()]
+        return lambda x, fns=elem_fns: float(sum(f(x) for f in fns))
+
+    elif isinstance(expr, FrobeniusNorm):
+        indices = np.array(
+            [var_indices[v.name] for row in expr.matrix._variables for v in row]
+        )
+        return lambda x, idx=indices: float(np.sqrt(np.sum(x[idx] ** 2)))
 
     elif isinstance(expr, VectorPowerSum):
         # sum(x ** k) - efficient numpy implementation
@@ -333,8 +354,12 @@ def _build_evaluator_iterative(
         VectorSum,
         VectorVariable,
         VectorExpressionSum,
+        ElementwisePower,
+        VectorPowerSum,
+        ElementwiseUnary,
+        VectorUnarySum,
     )
-    from optyx.core.matrices import QuadraticForm
+    from optyx.core.matrices import FrobeniusNorm, MatrixSum, QuadraticForm
 
     # Stack for iterative traversal: (expression, phase, children_fns)
     # phase 0: first visit, phase 1: children processed
@@ -428,6 +453,21 @@ def _build_evaluator_iterative(
             Q = node.matrix
             vec_fn = _build_vector_evaluator(node.vector, var_indices)
             result_stack.append(lambda x, vf=vec_fn, Q=Q: float(vf(x) @ Q @ vf(x)))
+            continue
+
+        # Flat vectorised / matrix nodes - same closures as the recursive builder
+        if isinstance(
+            node,
+            (
+                VectorPowerSum,
+                VectorUnarySum,
+                ElementwisePower,
+                ElementwiseUnary,
+                MatrixSum,
+                FrobeniusNorm,
+            ),
+        ):
+            result_stack.append(_build_evaluator(node, var_indices))
             continue
 
         # Binary operation
